@@ -159,6 +159,13 @@ namespace link_layer {
                     }
                     else if ( opcode == LinkLayer::LL_START_ENC_RSP && size == 1 )
                     {
+                        // LL_START_ENC_RSP is only valid as the answer to a LL_START_ENC_REQ, that was sent
+                        // because the LL_ENC_REQ of this procedure named a known key.
+                        if ( !has_key_ || encryption_in_progress_ )
+                            return false;
+
+                        has_key_ = false;
+
                         fill< layout_t >( write, { LinkLayer::ll_control_pdu_code, 1, LinkLayer::LL_START_ENC_RSP } );
                         that().start_transmit_encrypted();
                         encryption_changed = that().connection_data_.is_encrypted( true );
@@ -170,11 +177,13 @@ namespace link_layer {
                     else if ( opcode == LinkLayer::LL_PAUSE_ENC_REQ && size == 1 )
                     {
                         fill< layout_t >( write, { LinkLayer::ll_control_pdu_code, 1, LinkLayer::LL_PAUSE_ENC_RSP } );
+                        has_key_ = false;
                         that().stop_receive_encrypted();
                         encryption_changed = that().connection_data_.is_encrypted( false );
                     }
                     else if ( opcode == LinkLayer::LL_PAUSE_ENC_RSP && size == 1 )
                     {
+                        has_key_ = false;
                         that().stop_transmit_encrypted();
                         encryption_changed = that().connection_data_.is_encrypted( false );
 
@@ -224,6 +233,8 @@ namespace link_layer {
 
                 void reset_encryption()
                 {
+                    has_key_                = false;
+                    encryption_in_progress_ = false;
                     that().connection_data_.is_encrypted( false );
                     that().stop_receive_encrypted();
                     that().stop_transmit_encrypted();
